@@ -353,6 +353,11 @@ def _optional_int_formatter(ctx):
     f(ctx)                   # Optional[int] columns are formatted as integers (no detour through float64, which rounds above 2**53)
 
 
+def _field_tables_not_written(ctx):
+    from .c20 import r3_self_array_writes
+    r3_self_array_writes(ctx, ("bionumpy.io.file_buffers", "bionumpy.io.delimited_buffers"), floor=0)   # a number parsed twice from the same buffer is cut with the same field table
+
+
 RULES = [
     ("C18-R1", r1_formatting),
     ("C18-R2", r2_parsing),
@@ -366,4 +371,5 @@ RULES = [
     ("C18-R8", _copy_copies),
     ("C18-R9", r9_digit_fast_path),
     ("C18-R10", _optional_int_formatter),
+    ("C18-R11", _field_tables_not_written),
 ]
